@@ -200,6 +200,8 @@ package server
 // with the same id always meet in the same session, whatever their order.
 //@ func (*ActiveUser).GetSession
 //@   requires u != nil && u.panel != nil && u.panel.Manager != nil && !held(u.sessionsM) && locksBelow(u.sessionsM)
+//@   # C19: every session of a user is paced by the user's ONE valve (rates apply across sessions together)
+//@   atcall MakeSession requires sharedValve: arg1.(mux.SessionConfig).Valve == u.valve
 //@   atcall AuthoriseNewSession requires countIsCurrent: heldx(u.sessionsM) && ainfo.NumExistingSessions == mapLen(u.sessions)
 //@   ensures existingIsShared: existing ==> err == nil && sesh != nil && sesh == acq(u.sessions[sessionID])
 //@   ensures newIsRegistered: !existing && err == nil ==> sesh != nil && !acq(mapHas(u.sessions, sessionID) && u.sessions[sessionID] != nil) && u.sessions[sessionID] == sesh
@@ -248,6 +250,8 @@ package server
 //@   ensures ret0 != nil && fresh(ret0)
 //@ func (*userPanel).GetUser
 //@   requires panel != nil && panel.Manager != nil && holdsNone()
+//@   # C19: the valve limits what the server RECEIVES from the user (rx) by the upload rate and what it SENDS (tx) by the download rate
+//@   atcall MakeValve requires upIsRxDownIsTx: arg0.(int64) == upRate && arg1.(int64) == downRate
 //@   ensures userOnSuccess: ret1 == nil ==> ret0 != nil && ret0.panel == panel
 //@   ensures neverReplaces: forall k [16]byte :: acq(mapHas(panel.activeUsers, k)) ==> mapHas(panel.activeUsers, k) && panel.activeUsers[k] == acq(panel.activeUsers[k])
 //@   ensures refusedChangesNothing: ret1 != nil ==> ret0 == nil && (forall k [16]byte :: mapHas(panel.activeUsers, k) == acq(mapHas(panel.activeUsers, k)))
